@@ -77,7 +77,8 @@ def allU1 : List Val → Option (List Nat)
     | some a, some b => some (a ++ b)
     | _, _ => none
 
-/-- `r = np.asarray(r); ''.join(r) if r.dtype == '<U1' else r` of `eval_adverb_each2` -/
+/-- `eval_adverb_each2` before /repo 5fd71c0: `r = np.asarray(r); ''.join(r) if r.dtype == '<U1' else r`
+    (since then: `''.join(r) if all(is_char(u) for u in r)`, which is `mkSeq`) -/
 def u1Join (r : List Val) : Val :=
   match r, allU1 r with
   | _ :: _, some cs => .str cs
@@ -135,7 +136,7 @@ def refEach2 (seq : List Val → Val) (undef : m Val) (f : V2 m) (a b : Val) : m
   | _, _ => undef
 
 /-- `eval_adverb_each2` (after /repo f73dcd7 string operands are converted to character lists
-    before `zip`: `chars = strToChrArr`) -/
+    before `zip`: `chars = strToChrArr`; after 5fd71c0 the result list is presented by `seq = mkSeq`) -/
 def implEach2 (chars : List Nat → List Val) (seq : List Val → Val) (undef : m Val)
     (f : V2 m) (a b : Val) : m Val :=
   if isEmptySeq a || isEmptySeq b then pure (emptyOf a b)
@@ -242,7 +243,7 @@ def refWhile (truthy : Val → Bool) (p f : V1 m) : Nat → Val → m (Option Va
       | n + 1 => do let b' ← f b; refWhile truthy p f n b'
     else pure (some b)
 
-/-- `eval_adverb_while`: while klong.eval(KGCall(a, b)): b = f(b) -/
+/-- `eval_adverb_while`: while _klong_true(klong.eval(KGCall(a, b))): b = f(b) -/
 def implWhile (truthy : Val → Bool) (p f : V1 m) (n : Nat) (b : Val) : m (Option Val) :=
   pyWhile (fun b => do let t ← p b; pure (truthy t)) f n b
 
@@ -264,7 +265,7 @@ def refScanWhile (truthy : Val → Bool) (p f : V1 m) (n : Nat) (b : Val) : m (O
   let r ← refScanWhileL truthy p f n b
   pure (r.map .list)
 
-/-- `eval_adverb_scan_while`: r = [b]; while p(b): b = f(b); r.append(b)
+/-- `eval_adverb_scan_while`: r = [b]; while _klong_true(p(b)): b = f(b); r.append(b)
     r.pop() -/
 def implScanWhile (truthy : Val → Bool) (p f : V1 m) (n : Nat) (b : Val) : m (Option Val) := do
   let r ← pyWhile (fun (s : Val × List Val) => do let t ← p s.1; pure (truthy t))
@@ -318,15 +319,18 @@ def kindOf : Val → Nat
   | .int _ => 0 | .real _ => 1 | .chr _ => 2 | .sym _ => 3 | .str _ => 4 | .list _ => 5
   | .dict _ => 6 | .undef => 7
 
-/-- `_e` of `eval_adverb_converge` on the driver's (small-integer) universe -/
+/-- `_e` of `eval_adverb_converge` on the driver's (integer) universe: same Python type, integers
+    exactly equal (the `isclose` tolerance is for reals only since /repo ff3ef4a), arrays by `kg_equal` -/
 def convE (p q : Val) : Bool := kindOf p == kindOf q && vmatch p q
 
 /-- `kg_equal` on the driver's universe -/
 def kgEqual (p q : Val) : Bool := vmatch p q
 
-/-- Python truth of a predicate's result on the driver's universe (atoms only) -/
+/-- `_klong_true` of adverbs.py (since /repo 6be6fcc; Python truth before): 0, [] and "" are
+    false, everything else is true -/
 def pyTruth : Val → Bool
   | .int n => n != 0
+  | .real b => Float.ofBits b != 0
   | .str [] => false
   | .list [] => false
   | _ => true
@@ -444,7 +448,7 @@ def runAdverbX (impl : Bool) (adv verb pred : String) (args : List Val) : String
     | "@'", [a] => some ((if impl then implEachIndex strToChrArr f1 a else refEachIndex f1 a).run [])
     | "'", [a] => some ((if impl then implEachX strToChrArr f1 a else refEachX f1 a).run [])
     | "'", [a, b] =>
-      some ((if impl then implEach2 strToChrArr u1Join failure f2 a b
+      some ((if impl then implEach2 strToChrArr mkSeq failure f2 a b
              else refEach2 mkSeq failure f2 a b).run [])
     | ":~", [a] =>
       some ((unOpt (if impl then implConverge convE f1 fuel a else refConverge convE f1 fuel a)).run [])
